@@ -48,8 +48,9 @@ use rs_matter::dm::{
 };
 use rs_matter::error::{Error, ErrorCode};
 use rs_matter::im::{
-    EventPriority, IMStatusCode, InteractionModel, InteractionModelState, OpCode, StatusResp, EVENT_DATA_TAG,
+    EventPriority, IMStatusCode, InteractionModel, InteractionModelState, OpCode, StatusResp,
 };
+use rs_matter::im::events::EVENT_DATA_TAG;
 use rs_matter::persist::DummyKvBlobStore;
 use rs_matter::respond::Responder;
 use rs_matter::tlv::{TLVTag, TLVWrite};
@@ -379,7 +380,7 @@ impl rs_matter::dm::AsyncHandler for SynthDm<'_> {
         false
     }
     async fn read(&self, ctx: impl ReadContext, reply: impl ReadReply) -> Result<(), Error> {
-        self.0.read(ctx, reply).await
+        rs_matter::dm::AsyncHandler::read(&self.0, ctx, reply).await
     }
     fn bump_dataver(&self, _ctx: impl MatchContext) {}
 }
